@@ -126,6 +126,40 @@ def r_sym(prog, R):
         r.ok("rr header: name,type,class,ttl,rdlength on both sides", wf.loc(wf.ln))
     else:
         r.viol("rr header: name,type,class,ttl,rdlength on both sides", wf.name, wf.loc(wf.ln), "RR header layout differs: writer %s parser %s" % (wh, ph))
+    # the fixed RR header carries exactly what the getters report (no arithmetic between getter and wire): a reader of the record and a
+    # reader of the re-parsed bytes must see the same type, class and TTL
+    ordered = [el for _, _, el in exec_order(wf)]
+    want = {"ares_buf_append_be32": ["ares_dns_rr_get_ttl"], "ares_buf_append_be16": ["ares_dns_rr_get_type", "ares_dns_rr_get_class"]}
+    seen_src = set()
+    for el in ordered:
+        if el["k"] != "call" or el["e"].get("callee") not in want:
+            continue
+        a = nocast(call_arg(el["e"], 1))
+        src = None
+        if a is not None and a.get("k") == "call":
+            cn = a
+            if cn.get("ref"):
+                x = wf.call_by_id(cn["id"])
+                cn = x[2] if x else cn
+            src = cn.get("callee")
+        elif a is not None and a.get("k") == "var":
+            defs = [e2 for e2 in ordered if e2["k"] == "asg" and is_var(nocast(e2["e"]["l"]), a["n"])]
+            pure = len(defs) == 1 and defs[0]["e"]["op"] == "="
+            if defs:
+                cn = nocast(defs[0]["e"].get("r"))
+                if cn is not None and cn.get("k") == "call":
+                    if cn.get("ref"):
+                        x = wf.call_by_id(cn["id"])
+                        cn = x[2] if x else cn
+                    src = cn.get("callee") if pure else "%s (then modified: %s)" % (cn.get("callee"), "; ".join(d.get("t", "") for d in defs[1:])[:80])
+        if src in want[el["e"]["callee"]]:
+            seen_src.add(src)
+            r.ok("rr header field written as %s reports it" % src, wf.loc(el))
+        elif src and any(src.startswith(g) for g in want[el["e"]["callee"]]):
+            r.viol("rr header field written as %s reports it" % src.split(" ")[0], wf.name, wf.loc(el), "the value written to the wire is %s: API readers of the record and readers of the re-parsed bytes see different values" % src)
+    for g in ("ares_dns_rr_get_ttl", "ares_dns_rr_get_type", "ares_dns_rr_get_class"):
+        if g not in seen_src and not any(v["key"].startswith("rr header field written as %s" % g) for v in r.instances):
+            r.viol("rr header field written as %s reports it" % g, wf.name, wf.loc(wf.ln), "ares_dns_write_rr no longer writes the value of %s" % g)
     # parser enforces RDLENGTH: too much consumed -> error; too little -> skipped
     txt = [render(b.term["cond"]).replace("(", "").replace(")", "") for b in prr.blocks.values() if b.term and b.term.get("cond") is not None]
     if any("processed_len > rdlength" in t for t in txt) and any("processed_len < rdlength" in t for t in txt) and any("rdlength > ares_buf_len" in t for t in txt):
